@@ -1150,6 +1150,31 @@ def bytebuf_session(seed, n=60, exhaustive=False):
                 need += 8 * max(1, (int(f[1]).bit_length() + 6) // 7)
             else:
                 need += 32
+        def bits_of(t):
+            f = t.split(":")
+            if f[0] == "wb":
+                return 1
+            if f[0] == "ws":
+                return int(f[1])
+            if f[0] == "wy":
+                return 8 * int(f[1])
+            if f[0] in ("wi", "ww"):
+                return max(1, (int(f[2]) - 1).bit_length())
+            if f[0] == "wp":
+                return 8 * max(1, (int(f[1]).bit_length() + 6) // 7)
+            return 32
+        if rng.random() < 0.3:
+            # exact fit: single bits are inserted before the last write so that it ends on the very last bit of the buffer
+            # (a store that runs one byte over although every value is right is only visible here); the terminator then does not fit
+            last = w[-1]
+            pad = (-(need % 8)) % 8
+            if last.startswith("wb"):
+                pad = (-(need % 8)) % 8
+            w = w[:-1] + ["wb:%d" % rng.choice([0, 1]) for _ in range(pad)] + [last]
+            rd = rd[:-1] + ["rb"] * pad + rd[-1:] if rd else rd
+            need += pad
+            ops.append("bbs %d %s end %s" % (min(need // 8, 4000), " ".join(w), " ".join(rd)))
+            continue
         mode = rng.random()
         if mode < 0.4:
             cap = (need + 1 + 7) // 8 + rng.randint(0, 3)
